@@ -53,6 +53,21 @@ Proof.
   - cbn [last]. exact IH.
 Qed.
 
+(* a complete group occupies d+p slots: after its last data packet come the p parity slots *)
+Lemma slot_parity_gap d p j : 0 < d -> 0 <= p -> 0 <= j -> (j + 1) mod d = 0 ->
+  slot d (d + p) (j + 1) = slot d (d + p) j + 1 + p.
+Proof.
+  intros Hd Hp Hj Hm. unfold slot. rewrite Hm.
+  pose proof (Z.div_mod (j + 1) d ltac:(lia)) as E1. rewrite Hm in E1.
+  pose proof (Z.div_mod j d ltac:(lia)) as E2. pose proof (Z.mod_pos_bound j d Hd) as B.
+  assert (Hq : j / d = (j + 1) / d - 1).
+  { assert (j = d * ((j + 1) / d - 1) + (d - 1)) by lia.
+    symmetry. apply (Z.div_unique_pos j d ((j + 1) / d - 1) (d - 1)); lia. }
+  assert (Hr : j mod d = d - 1).
+  { symmetry. apply (Z.mod_unique_pos j d ((j + 1) / d - 1) (d - 1)); lia. }
+  rewrite Hq, Hr. lia.
+Qed.
+
 (* ---------------------------------------------------------------- well-formed encoders *)
 Definition fec_wf (e : fecenc) : Prop :=
   0 < fe_d e /\ 0 < fe_p e /\ fe_ss e = fe_d e + fe_p e /\ fe_ss e <= 256 /\
